@@ -19,6 +19,7 @@ import PycsepVerif.Drive.C10
 import PycsepVerif.Drive.C20
 import PycsepVerif.Drive.C17
 import PycsepVerif.Drive.C18
+import PycsepVerif.Drive.Src
 -- REGISTER-IMPORT (one `import PycsepVerif.Drive.Cxx` line per property, above this line)
 
 /-- the per-property handlers, tried in order; each returns `none` for ops it does not know -/
@@ -44,6 +45,7 @@ def handlers : List (List String → Option String) := [
   , Drive.C20.handle
   , Drive.C17.handle
   , Drive.C18.handle
+  , Drive.Src.handle
   -- REGISTER-HANDLER (`, Drive.Cxx.handle` lines above this line)
 ]
 
